@@ -291,6 +291,12 @@ class Engine:
         return self.field_classes.get(field, ()) if hasattr(self, "field_classes") else ()
 
     def write_field(self, st, ref, field, val):
+        try:
+            return self._write_field(st, ref, field, val)
+        except TypeError as e:      # a value of another kind than the schema records for this field
+            raise Unsupported(f"field `{field}` assigned a value of an unmodelled kind ({e})")
+
+    def _write_field(self, st, ref, field, val):
         for c in self.classes_of(st, ref):       # protobuf oneof: remember which member was set last (ghost)
             fd = getattr(getattr(c, "DESCRIPTOR", None), "fields_by_name", {}).get(field) \
                 if hasattr(c, "DESCRIPTOR") else None
